@@ -71,6 +71,9 @@ func floor(s *slip.Scope, f slip.Object, args slip.List, depth int) slip.Values 
 
 	switch tn := num.(type) {
 	case slip.Fixnum:
+		if div.(slip.Fixnum) == 0 {
+			slip.ArithmeticPanic(s, depth, f, args, "divide by zero")
+		}
 		q = tn / div.(slip.Fixnum)
 		r = tn - q.(slip.Fixnum)*div.(slip.Fixnum)
 		if 0 < div.(slip.Fixnum) {
